@@ -20,6 +20,12 @@ type pathEnd struct {
 	msg  string
 }
 
+// sigReg is one os/signal.Notify registration.
+type sigReg struct {
+	ch   *Chan
+	sigs []uint64
+}
+
 // goPanic is a panic of the interpreted program.
 type goPanic struct {
 	val   Value
@@ -110,6 +116,7 @@ type Interp struct {
 	unwind     int
 	files      map[*Value]*[]Value // pty stubs etc.
 	timers     []*timerRec
+	sigRegs    []sigReg // os/signal.Notify registrations (channel, signal numbers; none = all)
 	env        map[string]string
 	depth      int
 	curFrame   *frame
